@@ -701,10 +701,14 @@ func (c *Context) Children() vivid.ActorRefs {
 }
 
 // removeChild 移除子 Actor 引用并返回剩余子 Actor 数量
-func (c *Context) removeChild(path vivid.ActorPath) int {
+func (c *Context) removeChild(ref vivid.ActorRef) int {
 	c.childrenLock.Lock()
 	defer c.childrenLock.Unlock()
-	delete(c.children, path)
+	// children 以路径为键：仅当登记的子 Actor 正是该引用（地址与路径均一致）时才移除。
+	// 被监听的其他系统上的 Actor 可能与本地子 Actor 同路径，其死亡通知不应使存活的本地子 Actor 从表中消失
+	if child, ok := c.children[ref.GetPath()]; ok && child.Equals(ref) {
+		delete(c.children, ref.GetPath())
+	}
 	return len(c.children)
 }
 
